@@ -261,10 +261,20 @@ def standin_generated_orders(tier, seed):
     for s in sets:
         sels += list(itertools.permutations(s))
     sels.append(('s_good_test.ucg', 's_good_test.ucg'))      # the same file twice in one run
-    bound = ('%d fixed scenario files + %d seeded generated *_test.ucg files (0..6 assertions: true / false / malformed at run time / in module bodies instantiated 0..2 times, fields '
+    # the list is a multiset: files that do not build / fail / pass named twice, with and without another file in between, any order
+    n_before = len(sels)
+    twice = [f.name for f in fixed if f.build_error] + ['s_falsethentrue_test.ucg', 's_allmalformed_test.ucg'] + [f.name for f in gen if f.build_error or thorough]
+    for x in dict.fromkeys(twice):
+        sels.append((x, x))
+    for _ in range(60 if thorough else 6):
+        x, y = rnd.sample(names, 2)
+        sels.append(rnd.choice([(x, y, x), (x, x, y), (y, x, x), (x, y, y, x), (x, y, x, y)]))
+    n_multi = len(sels) - n_before + 1
+    bound = ('%d invocations naming a file twice (x x, x y x, ... in any order), and ' % n_multi) + ('%d fixed scenario files + %d seeded generated *_test.ucg files (0..6 assertions: true / false / malformed at run time / in module bodies instantiated 0..2 times, fields '
              'in either order, extra fields; 30%% with a build error of %d kinds first / in the middle / last, 10%% with an assert the type checker rejects); every file alone and '
              '%d sets of 2..3 files in EVERY order, one `ucg test` invocation each (%d invocations): verdicts, exit status, log entries' % (len(fixed), len(gen), len(BUILD_ERRORS), len(sets), len(sels)))
     work = tempfile.mkdtemp(prefix='verif_c13_')
+    workreal = os.path.realpath(work)
     try:
         for f in pool:
             with open(os.path.join(work, f.name), 'w') as fh:
@@ -275,14 +285,13 @@ def standin_generated_orders(tier, seed):
     for s, (rc, so, se) in zip(sels, res):
         files = [byname[n] for n in dict.fromkeys(s)]
         if len(set(s)) != len(s):
-            # the same file named twice: both validations must agree with the oracle; the log appears once per validation
-            probs = []
-            if (rc != 0) != any(not f.passes for f in files):
-                probs.append('exit status %d' % rc)
-            for f in files:
-                v = re.findall(VERDICT_RE % re.escape(f.name), so)
-                if not v or any(x != ('PASS' if f.passes else 'FAIL') for x in v):
-                    probs.append('%s reported %s' % (f.name, v))
+            # the same file named twice: every validation must agree with the oracle and carry the file's own log
+            pseudo = Project(0, [from_testfile(f) for f in files])
+            pseudo.root = workreal
+            cnt = {}
+            for n in s:
+                cnt[n] = cnt.get(n, 0) + 1
+            probs = check_dag_run(pseudo, cnt, rc, so, se)
         else:
             probs = check_run(files, rc, so, se)
         if probs:
